@@ -277,6 +277,49 @@ def build(tier, repo):
         if not seen:
             r6.ok("op.%s:op not written" % mname, m.where(fn, fn))
     r6.require(5)
+    r7 = chk.rule("C13-R7", "per-variable records are distinct objects: no `dict.fromkeys(.., <mutable>)` / `[<mutable>] * n` sharing one record between keys",
+                  "the bookkeeping of one variable is independent of the others")
+    nshare = 0
+    for q, fn in m.funcs.items():
+        for x in ast.walk(fn):
+            bad = None
+            if isinstance(x, ast.Call) and pf.call_name(x) in ("dict.fromkeys",) and len(x.args) == 2 \
+                    and isinstance(x.args[1], (ast.Dict, ast.List, ast.Set, ast.DictComp, ast.ListComp)):
+                bad = "dict.fromkeys(.., %s) stores one shared object under every key" % pf.norm_expr(x.args[1])[:40]
+            if isinstance(x, ast.BinOp) and isinstance(x.op, ast.Mult):
+                for side in (x.left, x.right):
+                    if isinstance(side, ast.List) and len(side.elts) == 1 and isinstance(side.elts[0], (ast.Dict, ast.List, ast.Set)):
+                        bad = "[<mutable>] * n repeats one shared object"
+            if bad:
+                nshare += 1
+                r7.violation("modeling.%s:shared mutable record" % q, m.where(x, fn), bad + ": an update through one key is seen through all",
+                             "a fresh record per key (comprehension / loop)", pf.norm_expr(x)[:80])
+    # positive anchor: the record creation sites exist and build a fresh dict literal each
+    fresh = [x for q, fn in m.funcs.items() if q.startswith("op.") for x in ast.walk(fn)
+             if isinstance(x, ast.Assign) and isinstance(x.value, ast.Dict) and {pf.norm_expr(k) for k in x.value.keys if k is not None} >= {"'o'", "'i'", "'e'"}]
+    for x in fresh:
+        r7.ok("op:record created by a dict display @%s:%s" % (pf.norm_expr(x.targets[0])[:40], pf.norm_expr(x.value)[:40]), "src/python/modeling.py:%d" % x.lineno)
+    r7.require(1)
+    r8 = chk.rule("C13-R8", "identity-membership lists (varlist) stay varlists: a name bound to varlist() is only extended in place, never rebound to a plain list",
+                  "variables() of expressions lists every distinct variable object (membership by identity, not by ==)")
+    nvl = 0
+    for q, fn in m.funcs.items():
+        names = {a.targets[0].id for a in ast.walk(fn) if isinstance(a, ast.Assign) and len(a.targets) == 1 and isinstance(a.targets[0], ast.Name)
+                 and isinstance(a.value, ast.Call) and pf.call_name(a.value) == "varlist" and not a.value.args}
+        for nm in sorted(names):
+            nvl += 1
+            rebinds = [a for a in ast.walk(fn) if isinstance(a, ast.Assign) and len(a.targets) == 1 and isinstance(a.targets[0], ast.Name)
+                       and a.targets[0].id == nm and not (isinstance(a.value, ast.Call) and pf.call_name(a.value) == "varlist")]
+            key = "modeling.%s:%s stays a varlist" % (q, nm)
+            if rebinds:
+                r8.violation(key, m.where(rebinds[0], fn),
+                             "`%s` was created as varlist() (membership by identity) and is rebound to `%s`: list + list gives a plain list, whose "
+                             "`in` uses ==, and `variable == x` builds a constraint object that is always true" % (nm, pf.norm_expr(rebinds[0].value)[:50]),
+                             "%s += [...]" % nm, pf.norm_expr(rebinds[0])[:70])
+            else:
+                r8.ok(key, m.where(fn, fn), "only extended in place")
+    chk.note_analysed("varlist_accumulators", nvl)
+    r8.require(1)
     return chk
 
 
